@@ -282,7 +282,7 @@ def run(run, replay_path=None, replay=None):
     # the functions under (run-time-checked, bounded) contract must still be there
     g = Source(run.repo, 'crates/erg_compiler/module/graph.rs')
     fns = []
-    for f in ('depends_on', 'deep_depends_on', 'children', 'parents', 'ancestors', 'inc_ref', 'sorted', 'rename_path'):
+    for f in ('deep_depends_on', 'children', 'parents', 'ancestors', 'inc_ref', 'sorted', 'rename_path'):
         d = g.fn(f, impl=r'ModuleGraph').describe()
         d["unit_label"] = "ModuleGraph::%s (BOUNDED run-time-checked contract only)" % f
         fns.append(d)
